@@ -183,7 +183,7 @@ class ModbusAsciiFramer(ModbusFramer):
                 else:
                     _logger.error("Not a valid unit id - {}, "
                                   "ignoring!!".format(self._header['uid']))
-                    self.resetFrame()
+                    self.advanceFrame()
             elif self._header['len']:
                 # a delimited frame that failed its check (bad LRC or not
                 # hex): drop its start character so that scanning resumes at
